@@ -4,6 +4,7 @@ from dataflow import assigned_locals
 from facts import callee_name
 
 MAXD = 7
+NAMED_CONTAINERS = ("std::vec::Vec", "std::collections::HashSet", "std::collections::HashMap", "std::string::String", "std::path::PathBuf")
 
 
 def short_fn(name):
@@ -47,6 +48,17 @@ class Prov:
         self.names = fn.debug_names()
         self._memo = {}
 
+    def mut_borrowed(self):
+        mb = getattr(self, "_mb", None)
+        if mb is None:
+            mb = set()
+            for blk in self.fn.blocks:
+                for st in blk["stmts"]:
+                    if st["s"] == "assign" and st["rv"]["r"] == "ref" and st["rv"]["mut"] and not st["rv"]["place"]["proj"]:
+                        mb.add(st["rv"]["place"]["local"])
+            self._mb = mb
+        return mb
+
     def local(self, l, depth=0, seen=()):
         key = l
         if key in self._memo and depth == 0:
@@ -63,7 +75,13 @@ class Prov:
             else:
                 r = "undef%d" % l
         elif len(defs) == 1:
-            r = self._def(defs[0], depth, seen + (l,))
+            nm = self.names.get(l)
+            ty = fn.locals[l]
+            if nm and ty.get("k") == "adt" and defs[0][1] == "t" and ty.get("adt") in NAMED_CONTAINERS and l in self.mut_borrowed():
+                # a named, by-value container built by a constructor call: its identity is its name
+                r = "var:%s" % nm
+            else:
+                r = self._def(defs[0], depth, seen + (l,))
         else:
             parts = sorted(set(self._def(d, depth + 1, seen + (l,)) for d in defs))
             if len(parts) == 1:
